@@ -83,7 +83,51 @@ def gen_session(rng, length, clean, dmax):
     return ops
 
 
+def roots_poly(rng, n, mult):
+    """prod (x - r_i): one root of multiplicity mult (if > 1), sometimes a second double/triple root, the rest simple"""
+    pool = [x for x in range(-12, 13) if x != 0]
+    rng.shuffle(pool)
+    rs, k = [], 0
+    if mult > 1:
+        rs += [pool[k]] * min(mult, n); k += 1
+    if n - len(rs) >= 3 and rng.random() < 0.5:
+        rs += [pool[k]] * rng.choice([2, 3]); k += 1
+    while len(rs) < n:
+        rs.append(pool[k % len(pool)] + (25 * (k // len(pool)))); k += 1
+    rs = rs[:n]
+    rng.shuffle(rs)
+    return "poly r %d %s" % (n, " ".join(str(x) for x in rs))
+
+
+def gen_grow_session(rng, goal, dmax):
+    """one context, standard algorithm: a small solve, then larger degrees whose multiple roots / clusters exceed the
+    previous degree (cluster restarts in the multiprecision phase work on the resized arrays), then shrink and grow again"""
+    lines = ["new", "algo u", "goal " + goal]
+    d = rng.randint(2, 5)
+    lines += [roots_poly(rng, d, 1), "solve"]
+    for step in range(rng.randint(2, 4)):
+        if step % 2 == 0:                               # grow: multiplicity larger than the previous degree
+            m = min(d + rng.randint(1, 2), 7)
+            d2 = min(dmax, m + rng.randint(3, 9))
+            lines += [roots_poly(rng, d2, m), "solve"]
+        else:                                           # shrink
+            d2 = rng.randint(2, max(2, d - 2))
+            lines += [roots_poly(rng, d2, rng.choice([1, 1, 2])), "solve"]
+        if rng.random() < 0.3: lines.append("get_roots")
+        d = d2
+    lines += ["free", "leakcheck"]
+    return lines
+
+
 WITNESSES = {
+    # degree sequence 3 -> 12 (quadruple root) -> 5 -> 16 (triple and double root), standard algorithm, isolate
+    "grow_multiple_roots": ["new", "poly r 3 1 2 3", "solve", "poly r 12 1 1 1 1 2 3 4 5 6 7 8 9", "solve", "poly r 5 1 2 3 4 5", "solve",
+                            "poly r 16 1 1 1 2 2 3 4 5 6 7 8 9 10 11 12 13", "solve", "get_roots", "free", "leakcheck"],
+    "shrink_then_grow_clusters": ["new", "poly r 9 2 2 2 2 2 -3 4 5 6", "solve", "poly r 2 1 -1", "solve",
+                                  "poly r 14 7 7 7 7 7 7 -2 -2 -2 1 3 5 9 11", "solve", "goal a", "free", "leakcheck"],
+    # goal approximate on a reused context: precision bookkeeping left by mps_improve / mps_restore_data
+    "approximate_then_larger": ["new", "goal a", "poly r 3 1 2 3", "solve", "poly r 12 1 1 1 1 2 3 4 5 6 7 8 9", "solve", "free", "leakcheck"],
+    "approximate_twice": ["new", "goal a", "poly r 6 1 1 1 2 3 4", "solve", "solve", "free", "leakcheck"],
     # the model witnesses of Properties_C15.v, replayed on the real library
     "witness_zero_roots": ["new", "poly m 2 -1 0 1", "solve", "poly m 8 0 0 0 0 0 1 0 0 1", "solve", "free", "leakcheck"],
     "witness_parse": ["new", "poly m 2 -1 0 1", "solve",
@@ -105,6 +149,9 @@ def model_line(hl):
             return "setpoly %d %d m" % (d, z)
         if w[1] == "s":
             return "setpoly %d 0 s" % int(w[2])
+        if w[1] == "r":
+            n = int(w[2]); z = sum(1 for x in w[3:3 + n] if int(x) == 0)
+            return "setpoly %d %d m" % (n, z)
         if w[1] == "f":
             m = re.search(r"Degree=(\d+)", hl); d = int(m.group(1))
             c = [int(x) for x in hl.split("\\n\\n")[1].replace("\\n", " ").split()]
@@ -130,7 +177,13 @@ def run_harness(ctx, h, lines, timeout=120):
 ST_RE = re.compile(r"^st (\d+) (\S+) ctx=(\d) init=(\d) n=(-?\d+) deg=(-?\d+) zr=(-?\d+) err=(\d) exitreq=(\d) sec=(\d) bmpc=(\d) heap=(\d+) thr=(-?\d+) ?(\S*)")
 
 
+SZ = {}           # last parsed run: line -> (exact?, sizes of the 12 work arrays)
+ARR = ["root", "order", "fppc1", "mfpc1", "mfppc1", "spar1", "again_old", "fap1", "fap2", "dap1", "dpc1", "dpc2"]
+SIZE_MISMATCH = []
+
+
 def parse_out(out):
+    SZ.clear()
     st, roots, leaks, cur = {}, {}, {}, None
     for l in out.splitlines():
         m = ST_RE.match(l)
@@ -139,6 +192,8 @@ def parse_out(out):
             st[int(g[0])] = dict(op=g[1], ctx=int(g[2]), init=int(g[3]), n=int(g[4]), deg=int(g[5]), zr=int(g[6]), err=int(g[7]),
                                  exitreq=int(g[8]), sec=int(g[9]), bmpc=int(g[10]), heap=int(g[11]), thr=int(g[12]), note=g[13])
             continue
+        if l.startswith("sz "):
+            w = l.split(); SZ[int(w[1])] = (int(w[2]), [int(x) for x in w[3].split(",")]); continue
         if l.startswith("roots "):
             w = l.split(); cur = int(w[1]); roots[cur] = dict(count=int(w[2]), phase=w[3], err=int(w[4].split("=")[1]), r=[])
         elif l.startswith("r ") and cur is not None:
@@ -235,6 +290,37 @@ def evaluate(ctx, h, hlines, want_fresh=True):
     st, roots, leaks = parse_out(out)
     info["steps"] = len(st)
     last = max(st) if st else 0
+    sizes = dict(SZ)
+    for i in sorted(sizes):
+        exact, got = sizes[i]
+        if i - 1 >= len(model) or first_bad is not None: break
+        exp_o = [int(x) for x in model[i - 1]["alloc"].split(",")]
+        exp_f = [int(x) for x in model_fixed[i - 1]["alloc"].split(",")]
+        ok = (lambda e: all((g == x) if exact else (g >= x) for g, x in zip(got, e)))
+        if not ok(exp_o) and not ok(exp_f):
+            badk = [ARR[k] for k in range(12) if ((got[k] != exp_f[k]) if exact else (got[k] < exp_f[k]))]
+            info["size_steps_bad"] = info.get("size_steps_bad", 0) + 1
+            if len(SIZE_MISMATCH) < 5:
+                SIZE_MISMATCH.append({"script": hlines[:i], "arrays": badk, "got": got, "model": exp_f, "step": i})
+            break
+        info["size_steps"] = info.get("size_steps", 0) + 1
+    if rc == 96:
+        # a write past the limbs of a GMP number (libgmp is not instrumented; see the guard in the harness)
+        approx_before, goal = False, "i"
+        for l in hlines[:last + 1]:
+            w = l.split()
+            if w[0] == "new": approx_before, goal = False, "i"
+            if w[0] == "goal": goal = w[1]
+            if w[0] in ("solve", "solve_async") and goal == "a": approx_before = True
+        fr = asan_signature("ERROR: AddressSanitizer: gmp-overflow\n" + err[err.rfind("ERROR: GmpGuard"):]).split(":", 2)[2]
+        fr = "<".join(f for f in fr.split("<") if not f.startswith("vf_"))
+        if approx_before:
+            sig = "gmp-overflow:stale-precision-after-approximate"
+        else:
+            sig = "gmp-overflow:%s:%s" % (hlines[last].split()[0] if last < len(hlines) else "?", fr or "sweep")
+        g = re.search(r"gmpguard .*", out)
+        viol.append((sig, "write past the end of a GMP block at step %d (%s): %s" % (last + 1, hlines[last] if last < len(hlines) else "?", g.group(0) if g else "")))
+        return viol, info
     if rc != 0:
         sig = asan_signature(err) if rc in (97, 98) else ("timeout" if rc == 124 else "crash:rc=%d" % rc)
         if first_bad is not None and last >= first_bad:          # the old-code model flags an invalid access at/before the crash
